@@ -4,7 +4,9 @@ import (
 	"fmt"
 	"go/ast"
 	"go/types"
+	"regexp"
 	"sort"
+	"strconv"
 	"strings"
 
 	"golang.org/x/tools/go/ssa"
@@ -1539,8 +1541,42 @@ func (vc *VC) callsiteCoverage(c *Contract) {
 
 // localAt: the value of source variable name at instruction site: the value of
 // the closest preceding reference (DebugRef) in a dominating block.
+var reCallResult = regexp.MustCompile(`^res_([A-Za-z0-9]+)_([0-9]+)$`)
+
 func (vc *VC) localAt(fr *Frame, site ssa.Instruction, name string) (Val, bool) {
 	sb := site.Block()
+	// pseudo local res_<Callee>_<n>: the result of the n-th call (in block order) of a function or method
+	// of that name, provided the call dominates the site - a name for values the source leaves unnamed
+	if m := reCallResult.FindStringSubmatch(name); m != nil {
+		want, _ := strconv.Atoi(m[2])
+		n := 0
+		for _, b := range fr.fn.Blocks {
+			for _, instr := range b.Instrs {
+				call, ok := instr.(*ssa.Call)
+				if !ok {
+					continue
+				}
+				cn := ""
+				if call.Call.IsInvoke() {
+					cn = call.Call.Method.Name()
+				} else if f := call.Call.StaticCallee(); f != nil {
+					cn = f.Name()
+				}
+				if cn != m[1] {
+					continue
+				}
+				n++
+				if n == want {
+					if !b.Dominates(sb) {
+						return Val{}, false
+					}
+					v, ok := fr.vals[call]
+					return v, ok
+				}
+			}
+		}
+		return Val{}, false
+	}
 	var best ssa.Value
 	var bestBlock *ssa.BasicBlock
 	for _, b := range fr.fn.Blocks {
